@@ -14,7 +14,7 @@ CAT_VARS = ["f", "g", "h", "o", "c"]
 NUM_VARS = ["x", "z", "w"]
 
 
-def make_frame(rng, n=None, factorial=False, nlev=None, cats=None, extra_cols=True, reps=None):
+def make_frame(rng, n=None, factorial=False, nlev=None, cats=None, extra_cols=True, reps=None, index=True):
     """a frame with columns y, x, z, w (numeric), f, g, h (str), o (ordered), c (Categorical), k (int codes).
     factorial=True: every combination of the categorical levels of `cats` occurs (replicated)."""
     cats = cats or CAT_VARS
@@ -49,9 +49,11 @@ def make_frame(rng, n=None, factorial=False, nlev=None, cats=None, extra_cols=Tr
             # every level occurs when n is large enough
             rng.shuffle(vals)
             catvals[v] = vals
+    frac_x = rng.random() < 0.4
     cols = [
         dm.col("y", "float", [str(rng.randint(-20, 20)) + ("/2" if rng.random() < 0.3 else "") for _ in range(n)]),
-        dm.col("x", "float", [str(rng.randint(-9, 9)) for _ in range(n)]),
+        # x: mostly integers, sometimes halves (a truncated or rounded product shows)
+        dm.col("x", "float", [str(rng.randint(-9, 9)) + ("/2" if frac_x and rng.random() < 0.5 else "") for _ in range(n)]),
         dm.col("z", "int", [rng.randint(1, 12) for _ in range(n)]),
         dm.col("w", "float", [str(rng.randint(-6, 6)) + ("/4" if rng.random() < 0.3 else "") for _ in range(n)]),
         dm.col("f", "str", catvals["f"]),
@@ -69,7 +71,21 @@ def make_frame(rng, n=None, factorial=False, nlev=None, cats=None, extra_cols=Tr
         bq = dm.col("bq", "int", [rng.randint(0, 1) for _ in range(n)])
         bq["dtype"] = "bool"
         cols.append(bq)
+    if extra_cols:
+        # an unused column of a type formulae has no use for, with a missing value: irrelevant to every design
+        cols.append(dm.col("stamp", "datetime", [None if i == 1 else f"2024-01-{1 + i % 28:02d}" for i in range(n)]))
+    # narrower integer dtypes hold the same numbers
+    if rng.random() < 0.3:
+        for c_ in cols:
+            if c_["name"] in ("z", "k", "n_trials") and c_["type"] == "int":
+                c_["dtype"] = rng.choice(["int32", "int16"])
     frame = {"columns": cols}
+    # the row index is not an input of any design: repeated, string or permuted labels now and then
+    r = rng.random()
+    if index and r < 0.3:
+        frame["index"] = rng.choice([[j % 3 for j in range(n)], [f"s{j // 2}" for j in range(n)],
+                                     [(j * 7 + 3) % n if n % 7 else (j * 5 + 3) % n for j in range(n)],
+                                     [j * 0.5 - 2 for j in range(n)]])
     # make x, z, w not constant / in general position: replace some by distinct values
     return frame
 
